@@ -6,6 +6,7 @@ import AbraModel.Drv.IdSet
 import AbraModel.Drv.Sort
 import AbraModel.Drv.CallOrder
 import AbraModel.Drv.Pratt
+import AbraModel.Drv.Lex
 import AbraModel.Drv.StrOps
 import AbraModel.Drv.SrcMap
 import AbraModel.Drv.Sched
@@ -29,6 +30,10 @@ def dispatch (line : String) : String :=
   | "pratt" :: rest => handlePratt rest
   | "prattfix" :: rest => handlePrattFix rest
   | "prattfold" :: rest => handlePrattFold rest
+  | "lex" :: rest => handleLex true rest
+  | "lexkinds" :: rest => handleLex false rest
+  | "intlit" :: rest => handleIntLit rest
+  | "escape" :: rest => handleEscape rest
   | "str" :: rest => handleStr rest
   | "srcmap" :: rest => handleSrcMap rest
   | "sched" :: rest => handleSched rest
